@@ -12,6 +12,7 @@ CHECKS = {
  "C03": ("bounded symbolic execution of broker.Service.Authorize with the real keygen service, SingleContractProvider/contract.Validate, security.Key (SetTarget, ValidateChannel, IsExpired, HasPermission), ParseChannel and murmur hash.Of: all key fields, the license, the clock, the permission needed and the letters of target and requested channel symbolic, compared in both directions with the predicate transcribed from the statement", "3 C03"),
  "C04": ("bounded symbolic execution of crdt.Volatile/Durable Merge/Add/Del/Has/Get: three update sets with symbolic int64 add/remove times delivered to four replicas in every order, with duplicates, pre-merged groups and relayed deltas; local operations under an arbitrary clock", "3 C04"),
  "C07": ("bounded symbolic execution of pubsub.OnPublish, OnLastWill and OnSubscribe with the real Authorize/ParseChannel/Channel.TTL/Last/Window (strconv from SSA): permission mask, retain/will flags and option values symbolic (decimal digits, plus the values at the 2^31/2^32 boundaries), storage as a recording stub", "3 C07"),
+ "C08": ("bounded symbolic execution of broker.Conn.Close (with its recover), Process/onReceive/onConnect on a scripted socket, pubsub.Unsubscribe/OnLastWill, Counters.All and the trie: histories of subscriptions with arbitrary ssid words plus a link auto-subscription, a watched last will with a symbolic permission mask, and a real encoded session stream cut at every byte offset, ended by DISCONNECT or corrupted in one byte", "3 C08"),
  "C11": ("bounded symbolic execution of keygen.OnRequest/CreateKey/ExtendKey (Request.access/expires), broker.Service.Authorize(AllowExtend), Key.SetTarget/ValidateChannel and the extend guards of pubsub.OnSubscribe/OnUnsubscribe/OnPublish and link.OnRequest: every presented key (all 24 bytes' fields, license, clock symbolic), type letters, ttl and channel letters", "3 C11"),
  "C13": ("bounded symbolic execution of Volatile.Merge, Durable.Merge and State.Merge: local state and incoming payload symbolic per key (every order of add/remove times, ties, zeros, missing keys); payloads queued through the gossip sender's pending.Merge(new) rule", "3 C13"),
  "C20": ("bounded symbolic execution of Xtea/Salsa/Shuffle EncryptKey/DecryptKey with every secret symbolic, the real base64 codec pair (encoding/base64 SSA + decodeKey), license V1 String/Parse and Parse on arbitrary byte strings; decided compositionally (codec bijection L1, cipher inversion L2)", "3 C20"),
